@@ -923,12 +923,63 @@ fn check_lazy_seeks(ctx: &mut Ctx, opt: Opt, l: &(Vec<u32>, Vec<u32>), targets: 
 }
 
 // ------------------------------------------------------------------------------------------
+// ExpUnrolledLinkedList: the recorders' byte logs, several lists interleaved in one arena
+// ------------------------------------------------------------------------------------------
+fn check_expull(ctx: &mut Ctx, nlists: usize, writes: &[(usize, Vec<u8>)], model: bool) {
+    let case = json!({"kind": "expull", "lists": nlists, "writes": writes.iter().map(|(i, b)| format!("{i}:{}", if b.is_empty() { "-".to_string() } else { hex(b) })).collect::<Vec<_>>()});
+    let total: usize = writes.iter().map(|w| w.1.len()).sum();
+    ctx.report.case(&format!("expull|{nlists}|{}|{}", writes.len(), total.min(1 << 20).next_power_of_two()), total > 0);
+    ctx.report.count("expull");
+    let r = catch_unwind(AssertUnwindSafe(|| tantivy::verif::c07_expull_run(nlists, writes)));
+    let (outs, len) = match r {
+        Ok(x) => x,
+        Err(p) => { ctx.report.violation("oracle", "C07:panic", format!("ExpUnrolledLinkedList ({nlists} lists, {} writes): {}", writes.len(), panic_msg(p)), case); return; }
+    };
+    let mut want = vec![Vec::<u8>::new(); nlists];
+    for (i, b) in writes {
+        want[*i].extend_from_slice(b);
+    }
+    if outs != want {
+        let i = (0..nlists).find(|i| outs[*i] != want[*i]).unwrap_or(0);
+        let j = outs[i].iter().zip(&want[i]).position(|(x, y)| x != y).unwrap_or(outs[i].len().min(want[i].len()));
+        ctx.report.violation("oracle", "C07:expull-roundtrip", format!("ExpUnrolledLinkedList #{i} of {nlists}: read_to_end returns {} bytes, {} were written; first difference at byte {j}", outs[i].len(), want[i].len()), case.clone());
+    }
+    if model {
+        let ws = if writes.is_empty() { "-".to_string() } else { writes.iter().map(|(i, b)| format!("{i}:{}", if b.is_empty() { "-".to_string() } else { hex(b) })).collect::<Vec<_>>().join(";") };
+        let m = ctx.model.ask(&format!("C07 expull {nlists} {ws}"));
+        let mut parts: Vec<String> = outs.iter().map(|o| if o.is_empty() { "-".to_string() } else { hex(o) }).collect();
+        parts.push(len.to_string());
+        let real = parts.join("|");
+        if m != real {
+            let sh = |s: &str| if s.len() > 120 { format!("{}…", &s[..120]) } else { s.to_string() };
+            ctx.report.violation("model", "C07:model-expull", format!("{nlists} lists, {} writes: real {} (arena len {len}) model {}", writes.len(), sh(&real), sh(&m)), case);
+        }
+    }
+}
+
+fn gen_expull_writes(rng: &mut Rng, nlists: usize, n: usize, big: usize) -> Vec<(usize, Vec<u8>)> {
+    (0..n).map(|_| {
+        let i = rng.usize_below(nlists);
+        let len = match rng.below(12) {
+            0 => 0,
+            1 => 7 + rng.usize_below(3),
+            2 => 15 + rng.usize_below(3),
+            3 => 20 + rng.usize_below(80),
+            4 if big > 0 => big / 2 + rng.usize_below(big),
+            _ => 1 + rng.usize_below(5),
+        };
+        (i, (0..len).map(|_| rng.below(256) as u8).collect())
+    }).collect()
+}
+
+// ------------------------------------------------------------------------------------------
 pub fn obligations() -> Vec<String> {
     vec![
         "TermInfoStore bytes written through TermDictionaryBuilder = model `tis_write`; model `tis_get` of the real bytes = written TermInfo; TermDictionary::get = written TermInfo".into(),
         "serialize_vint_u32 bytes / read_u32_vint_no_advance = model (unrolled ladder with extracted thresholds); round trip on the real code".into(),
         "segments whose recorders see 2^(7k)-1, 2^(7k), 2^(7k)+1 as position+1, term frequency or doc-id gap read back exactly".into(),
         "index sorted by a fast field (doc_id_map branch of Recorder::serialize): read-back = inversion in the new order = model `pipeline_remap`".into(),
+        "ExpUnrolledLinkedList: read_to_end of every list sharing a MemoryArena = the bytes written to it, = the Lean model (op expull, arena length included)".into(),
         "a program of BlockSegmentPostings::seek calls lands on the first doc >= target each time and = the lazy cursor model (op lazyseeks)".into(),
         "recycled block cursor (read_block_postings_from_terminfo, advance/drain/seek, reset_block_postings_from_terminfo) enumerates exactly the new term".into(),
     ]
@@ -944,6 +995,16 @@ pub fn replay(ctx: &mut Ctx, case: &J) -> bool {
             let opt = Opt::from_name(case["opt"].as_str().unwrap_or("")).unwrap_or(Opt::Basic);
             let has = ctx.model.ask("C07 recycle basic 0 - A0 0 -") != "bad-op";
             check_recycle_codec(ctx, opt, &(u("a_docs"), u("a_tfs")), &(u("b_docs"), u("b_tfs")), case["move"].as_str().unwrap_or("A0"), has);
+        }
+        "expull" => {
+            let n = case["lists"].as_u64().unwrap_or(1) as usize;
+            let ws: Vec<(usize, Vec<u8>)> = case["writes"].as_array().map(|a| a.iter().filter_map(|x| {
+                let (i, h) = x.as_str()?.split_once(':')?;
+                let b = if h == "-" { vec![] } else { (0..h.len() / 2).filter_map(|k| u8::from_str_radix(&h[2 * k..2 * k + 2], 16).ok()).collect() };
+                Some((i.parse().ok()?, b))
+            }).collect()).unwrap_or_default();
+            let has = ctx.model.ask("C07 expull 1 -") != "bad-op";
+            check_expull(ctx, n.max(1), &ws, has);
         }
         "lazy-seeks" => {
             let u = |k: &str| -> Vec<u32> { case[k].as_array().map(|a| a.iter().filter_map(|x| x.as_u64()).map(|x| x as u32).collect()).unwrap_or_default() };
@@ -1007,6 +1068,23 @@ pub fn run(ctx: &mut Ctx, model_has_vint32: bool) {
             _ => if da.is_empty() { "A1".to_string() } else { format!("S{}", da[rng2.usize_below(da.len())]) },
         };
         check_recycle_codec(ctx, opt, &(da, ta), &(db, tb), &mv, has_recycle);
+    }
+    let has_expull = ctx.model.ask("C07 expull 1 -") != "bad-op";
+    if !has_expull {
+        ctx.report.violation("model", "C07:model-unavailable", "the Lean driver answers bad-op for expull".into(), json!({"kind": "probe"}));
+    }
+    let mut rng4 = ctx.rng.fork();
+    for round in 0..ctx.budget(60, 1500) {
+        let nlists = 1 + rng4.usize_below(4);
+        let n = match round % 6 { 0 => rng4.usize_below(4), 1 => 40 + rng4.usize_below(200), _ => 1 + rng4.usize_below(40) };
+        let big = if round % 10 == 3 { 20_000 } else { 0 };
+        let ws = gen_expull_writes(&mut rng4, nlists, n, big);
+        check_expull(ctx, nlists, &ws, has_expull);
+    }
+    if ctx.thorough() {
+        // across the 1 MiB page of the arena
+        let ws: Vec<(usize, Vec<u8>)> = (0..5).map(|k| (k % 2, (0..300_000u32).map(|x| (x.wrapping_mul(2654435761).wrapping_add(k as u32) >> 13) as u8).collect())).collect();
+        check_expull(ctx, 2, &ws, has_expull);
     }
     let has_lazy = ctx.model.ask("C07 lazyseeks basic 0 - -") != "bad-op";
     if !has_lazy {
